@@ -265,6 +265,23 @@ Definition ref_name (l : lang) (k : kind) (popt : str) (encl : list str) (name :
   | None => n
   end.
 
+(* _ast.Scope.get_name_by_member and Formatter._get_definition_name: the key under which a
+   member OBJECT is registered in its scope (`is` comparison; objects are modelled by ids,
+   [members] is the scope's dict in insertion order), else the member's own name.  For a proto
+   imported with `import <as> "file"` the key is <as>, otherwise the proto's own name: this is
+   the [imp] argument of [ref_name]. *)
+Fixpoint name_by_member (members : list (str * N)) (id : N) : option str :=
+  match members with
+  | [] => None
+  | (k, i) :: r => if (i =? id)%N then Some k else name_by_member r id
+  end.
+
+Definition definition_name (members : list (str * N)) (id : N) (own : str) : str :=
+  match name_by_member members id with
+  | Some k => k
+  | None => own
+  end.
+
 (* Formatter.format_message_field_name *)
 Definition field_name (l : lang) (name : str) : str := format_case_style l KMessageField name.
 
